@@ -40,7 +40,13 @@ RULE = ("case = (namespace tree of depth <= 3 with a nested configuration dict p
         "of depth 3-4 in which most inner collections have a default task; runs of 2-4 distinct tasks by Executor.execute or one "
         "Program command line, named by full names, aliases, root-level and nested default shortcuts (`a.b`, `a.b.c`), built "
         "around a nested shortcut next to a task of the enclosing collection (both orders), next to tasks of sibling collections "
-        "and of the root, plus random mixtures and their reversals; every body is judged by the same oracle for ITS path")
+        "and of the root, plus random mixtures and their reversals; every body is judged by the same oracle for ITS path.  "
+        "Sessions: in 40% of the histories ONE Executor and ONE Program object per collection serve all lookups of the history, "
+        "the (up to 8 deepest) names being run again after every change.  Shared option dicts: ONE dict object is handed to "
+        "configure() of 2-3 collections (fresh unconfigured siblings, their parent, other collections), one of them is then "
+        "configured again inside a section of that dict; every dict ever handed to configure() must stay as it was.  "
+        "Reconfiguration inside one run: probe(tag 1), a task whose body calls configure() on a collection on (80%) or off the "
+        "probe's path, probe again (tag 2, 3) in one execute() / command line; each call sees the tree as it is at that time")
 TRUSTED = ["Lean 4.33 kernel", "axioms propext/Classical.choice/Quot.sound only",
            "harness/props/c10.py + c17.py: tree builder, serialisation of the real object, canonicalisation",
            "models Invoke/Model/Collection.lean and Invoke/Model/Val.lean hand-written, tied to invoke.collection / "
@@ -287,11 +293,68 @@ def gen_history(rng, spec, nsteps):
     mounted = []  # second roots: (index, path of the shared collection in the first tree)
     nroots = [0]  # further lookup roots: second roots and the `ns` objects of modules
 
+    session = rng.random() < 0.4  # ONE Executor / Program object per collection is kept alive over the whole history
+
     def look(path=None, root=0):
         if path is None:
             path = []
-        steps.append({"op": "look", "root": root, "at": path, "how": rng.choice(HOWS), "pick": rng.randrange(1000),
-                      "tamper": rng.random() < 0.5})
+        st = {"op": "look", "root": root, "at": path, "how": rng.choice(HOWS), "pick": rng.randrange(1000),
+              "tamper": rng.random() < 0.5}
+        if session:
+            st["session"] = True
+            if rng.random() < 0.6:
+                st["how"] = rng.choice(["executor", "executor", "program"])
+        steps.append(st)
+
+    def shared_configure(k):
+        """the SAME dict object becomes the (preferably first) configuration of 2-3 collections - siblings, or parent and
+        child -, then one of them is configured again inside a section of that dict; -> path to look from"""
+        ns = nodes()
+        empty = [(n, p) for n, p in ns if not n["cfg"] and p]
+        if len(empty) < 2 and rng.random() < 0.8:
+            # two fresh, unconfigured sibling collections
+            node, path = pick_node(0.5)
+            for j in range(2):
+                sub = {"name": "shr%d_%d" % (k, j), "ad": node.get("ad"), "tasks": [{"fn": "t%d_%d" % (k, j), "tname": None, "own": [],
+                       "bind": None, "extra": [], "default": "add" if rng.random() < 0.5 else None}], "colls": [], "cfg": {}, "via": "methods"}
+                ks = {"node": sub, "bind": None, "default": False}
+                node["colls"].append(ks)
+                steps.append({"op": "add_coll", "at": path, "kid": copy.deepcopy(ks)})
+            look([])
+            targets = [path + [len(node["colls"]) - 2], path + [len(node["colls"]) - 1]]
+            if rng.random() < 0.3:
+                targets.append(path)  # ... and their parent
+        else:
+            pool = empty if len(empty) >= 2 else [(n, p) for n, p in ns if p]
+            if len(pool) < 2:
+                return
+            targets = [p for n, p in rng.sample(pool, min(len(pool), rng.choice([2, 2, 3])))]
+        cfg = base.gen_cfg(rng, True)
+        if not isinstance(cfg.get("sec"), dict):
+            cfg["sec"] = {"a": rng.randint(0, 9), "sub2": {"p": rng.randint(0, 9)}}
+        try:
+            for tp in targets:
+                base.ref_merge_into(copy.deepcopy(spec_at(spec, tp)["cfg"]), cfg)
+        except base.Clash:
+            return
+        for tp in targets:
+            base.ref_merge_into(spec_at(spec, tp)["cfg"], cfg)
+        steps.append({"op": "configure_shared", "ats": targets, "cfg": cfg})
+        look([])
+        # one of them is configured a second time, inside a section the shared dict brought along
+        again = rng.choice(targets)
+        inner = {"b": rng.randint(10, 99), "c": "again%d" % k}
+        cfg2 = {"sec": dict(inner, sub2={"q": rng.randint(10, 99)}) if rng.random() < 0.5 else inner}
+        try:
+            base.ref_merge_into(copy.deepcopy(spec_at(spec, again)["cfg"]), cfg2)
+        except base.Clash:
+            return
+        base.ref_merge_into(spec_at(spec, again)["cfg"], cfg2)
+        steps.append({"op": "configure", "at": again, "cfg": cfg2})
+        look([])
+        for tp in targets:
+            if tp != again and tp and rng.random() < 0.5:
+                look(tp)
 
     def mount():
         inner = [(n, p) for n, p in nodes() if p and base.has_tasks(n)]
@@ -410,6 +473,9 @@ def gen_history(rng, spec, nsteps):
         if r < 0.14:
             after_module(add_module(k))
             continue
+        if r < 0.26:
+            shared_configure(k)
+            continue
         if r < 0.55:
             node, path = pick_node(2.0)
             cfg = base.gen_cfg(rng, True)
@@ -503,7 +569,13 @@ def hist_features(spec, steps):
                         break
             if i == 0:
                 f.append("module_loaded_before_first_lookup")
-        if st["op"] in ("look", "mount", "add_module"):
+        if st["op"] == "configure_shared":
+            f.append("one_dict_configures_%d_collections" % len(st["ats"]))
+            if any(s2["op"] == "configure" and s2["at"] in st["ats"] for s2 in steps[i + 1:]):
+                f.append("one_dict_shared_then_one_collection_configured_again")
+        if st["op"] == "look" and st.get("session") and i == 0:
+            f.append("session_history(one Executor/Program kept alive)")
+        if st["op"] in ("look", "mount", "add_module", "configure_shared"):
             continue
         for k2, mp in mounts.items():
             if st["at"][:len(mp)] == mp and any(s["op"] == "look" and s.get("root", 0) == k2 for s in steps[i + 1:]):
@@ -518,7 +590,28 @@ def hist_features(spec, steps):
     return f
 
 
-def check_look(spec, root, b, st, hist, lines=None):
+def session_run(session, real, how, n):
+    """run `n` on the Executor / Program object this history keeps alive for the collection `real`"""
+    import contextlib
+    import io
+    from invoke import Config, Executor, Program
+    key = (how, id(real))
+    if key not in session:
+        session[key] = Executor(real, config=Config()) if how == "executor" else Program(namespace=real)
+    del base.RUNLOG[:]
+    exc = None
+    try:
+        with contextlib.redirect_stdout(io.StringIO()), contextlib.redirect_stderr(io.StringIO()), base.wide_terminal():
+            if how == "executor":
+                session[key].execute(n)
+            else:
+                session[key].run(["prog", n], exit=False)
+    except BaseException as e:  # noqa
+        exc = "%s: %s" % (type(e).__name__, e)
+    return list(base.RUNLOG), exc
+
+
+def check_look(spec, root, b, st, hist, lines=None, session=None):
     """one lookup step through the collection at st['at'], judged against the spec AS IT IS NOW"""
     fails = []
     node, real = base.node_at(spec, root, st["at"])
@@ -542,6 +635,7 @@ def check_look(spec, root, b, st, hist, lines=None):
         except Exception:  # noqa  (type-inconsistent settings on some path: the lookups below decide)
             pass
     runs = 0
+    session_names = set(sorted(names, key=lambda x: (-x.count("."), x))[:8])
     for idx, n in enumerate(names):
         res, t, cfg = base.impl_lookup(real, n)
         if lines is not None:
@@ -570,9 +664,15 @@ def check_look(spec, root, b, st, hist, lines=None):
                           % (where, "task_with_config" if how == "twc" else "configuration", n, t._vid, tp,
                              get_path(got, d), ".".join(d), get_path(exp, d)), [n]))
             continue
-        if how in ("program", "executor") and runs < 2 and (idx + st["pick"]) % max(1, len(names) // 2) == 0:
+        in_session = session is not None and st.get("session") and how in ("program", "executor")
+        if how in ("program", "executor") and ((in_session and n in session_names) or
+                                               (not in_session and runs < 2 and (idx + st["pick"]) % max(1, len(names) // 2) == 0)):
             runs += 1
-            if how == "program":
+            if in_session:
+                # ONE Executor / Program object serves the whole history: the same names run again after every change
+                log, exc = session_run(session, real, how, n)
+                hist["hist_session_runs_" + how] += 1
+            elif how == "program":
                 _o, _e, log, exc = base.quiet_run(real, [n])
             else:
                 log, exc = executor_run(real, n)
@@ -622,8 +722,9 @@ def apply_op(spec, root, b, st):
     node, real = base.node_at(spec, root, st["at"])
     if st["op"] == "configure":
         base.ref_merge_into(node["cfg"], st["cfg"])
-        real.configure(copy.deepcopy(st["cfg"]))
-        return None
+        opts = copy.deepcopy(st["cfg"])
+        real.configure(opts)
+        return opts
     if st["op"] == "add_task":
         ts = copy.deepcopy(st["task"])
         t, vid = base.make_task(b, ts)
@@ -693,14 +794,30 @@ def run_history(tree, steps, hist=None, want_model=False):
     enc0 = base.enc(root) if (want_model and base.encodable(root)) else None
     msteps, answers = [], []
     roots = [(spec, root)]
+    session = {}
+    held = []  # dict objects the caller handed to configure(): (object, snapshot, step)
     for k, st in enumerate(steps):
-        if st["op"] == "mount":
+        bad = [(o, snap, at0) for o, snap, at0 in held if o != snap]
+        if bad:
+            return [("caller-dict-mutated", "step %d: the options dict handed to configure() in step %d has been changed by the library: "
+                     "it was %r, it is %r" % (k - 1, bad[0][2], bad[0][1], bad[0][0]), [])], k - 1, None, None
+        if st["op"] == "configure_shared":
+            # ONE dict object is handed to configure() of several collections (siblings, parent and child)
+            opts = copy.deepcopy(st["cfg"])
+            held.append((opts, copy.deepcopy(opts), k))
+            for at in st["ats"]:
+                node, real = base.node_at(spec, root, at)
+                base.ref_merge_into(node["cfg"], st["cfg"])
+                real.configure(opts)
+                msteps.append("c%s@%s" % (".".join(addr_keys(spec, at)), base.enc_val(st["cfg"])))
+            hist["hist_op_configure_shared"] += 1
+        elif st["op"] == "mount":
             roots.append(mount_second_root(spec, root, b, st))
             hist["hist_op_mount"] += 1
         elif st["op"] == "look":
             rspec, rreal = roots[st.get("root", 0)]
             looked = [] if (enc0 is not None and not st.get("root", 0)) else None
-            found = check_look(rspec, rreal, b, st, hist, looked)
+            found = check_look(rspec, rreal, b, st, hist, looked, session)
             hist["hist_looks"] += 1
             for ri, (xspec, xreal) in enumerate(roots[1:], 1):  # second roots and the ns objects of loaded modules keep what they store
                 xexp = base.eff_cfg(xspec)
@@ -730,6 +847,7 @@ def run_history(tree, steps, hist=None, want_model=False):
                     else:
                         msteps.append("k%s@%s:%d:%s" % (addr, raw, dflt, e))
             elif st["op"] == "configure":
+                held.append((extra, copy.deepcopy(st["cfg"]), k))
                 msteps.append("c%s@%s" % (addr, base.enc_val(st["cfg"])))
             elif st["op"] == "add_task":
                 ts = st["task"]
@@ -740,6 +858,10 @@ def run_history(tree, steps, hist=None, want_model=False):
                     enc0 = None
                 else:
                     msteps.append("k%s@%s:%d:%s" % (addr, base.kid_raw(st["kid"]), 1 if st["kid"]["default"] else 0, extra))
+    bad = [(o, snap, at0) for o, snap, at0 in held if o != snap]
+    if bad:
+        return [("caller-dict-mutated", "step %d: the options dict handed to configure() in step %d has been changed by the library: "
+                 "it was %r, it is %r" % (len(steps) - 1, bad[0][2], bad[0][1], bad[0][0]), [])], len(steps) - 1, None, None
     line = None
     if enc0 is not None and answers:
         line = enc0 + "\tH" + "|".join(msteps)
@@ -1207,6 +1329,129 @@ def run_multi_task_runs(ctx, out):
                      "%s [several tasks in one run]: %s" % (kind, why))
 
 
+# ------------------------------------------------------------------------------------------ reconfiguration inside one run
+# One execute() / command line: a probe task is called, then a task whose BODY calls configure() on some collection of
+# the tree, then the probe again with another argument (so that deduplication keeps it).  Each body sees the merge along
+# its path of the tree AS IT IS at the time of the call.
+
+def probe_body(c, tag=None):
+    TWINLOG.append((tag, _snap(c)))
+
+
+def gen_inrun(rng, spec):
+    nodes = [(n, list(p)) for n, p in base.spec_nodes(spec)]
+    pnode, ppath = rng.choice([x for x in nodes if x[1]] or nodes)
+    # the collection reconfigured: mostly one on the probe's path (any level), sometimes one off it
+    on_path = [ppath[:i] for i in range(len(ppath) + 1)]
+    target = rng.choice(on_path) if rng.random() < 0.8 else rng.choice(nodes)[1]
+    cfg = base.gen_cfg(rng, True) or {"sec": {"a": rng.randint(10, 99)}}
+    try:
+        base.ref_merge_into(copy.deepcopy(spec_at(spec, target)["cfg"]), cfg)
+    except base.Clash:
+        return None
+    return {"probe_at": ppath, "reconf_at": rng.choice(nodes)[1], "target": target, "cfg": cfg,
+            "via": rng.choice(["executor", "executor", "program"]), "calls": rng.choice([2, 2, 3])}
+
+
+def run_inrun(tree, u, hist=None):
+    import contextlib
+    import io
+    from collections import Counter
+    from invoke import Config, Executor, Program, Task
+    hist = hist if hist is not None else Counter()
+    spec, root, b = base.build_case(tree)
+
+    def add(path, name, body):
+        node, real = base.node_at(spec, root, path)
+        b.next_id += 1
+        t = Task(body, name=name)
+        t._vid = b.next_id
+        real.add_task(t)
+        node["tasks"].append({"fn": name, "tname": name, "own": [], "bind": None, "extra": [], "default": None, "_vid": b.next_id})
+        return b.next_id
+    tnode, treal = base.node_at(spec, root, u["target"])
+
+    def reconf(c):
+        treal.configure(copy.deepcopy(u["cfg"]))
+    pvid = add(u["probe_at"], "probe", probe_body)
+    rvid = add(u["reconf_at"], "reconf", reconf)
+
+    def want():
+        infos = base.expected_bindings(spec, root, b)
+        i = [x for x in infos if x["vid"] == pvid][0]
+        e = expected_cfg(i)
+        return i, (None if e is None else {k: v for k, v in e.items() if k in base.WATCH_KEYS})
+    pi, before = want()
+    rname = [x for x in base.expected_bindings(spec, root, b) if x["vid"] == rvid][0]["primary"]
+    base.ref_merge_into(tnode["cfg"], u["cfg"])
+    _, after = want()
+    if before is None or after is None:
+        hist["inrun_dontcare_type_clash"] += 1
+        return []
+    if json_key(before) != json_key(after):
+        hist["inrun_reconfiguration_changes_the_probe_settings"] += 1
+    pname = pi["primary"]
+    del TWINLOG[:]
+    exc = None
+    try:
+        with contextlib.redirect_stdout(io.StringIO()), contextlib.redirect_stderr(io.StringIO()), base.wide_terminal():
+            if u["via"] == "executor":
+                seq = [(pname, {"tag": "1"}), rname] + [(pname, {"tag": str(k)}) for k in range(2, u["calls"] + 1)]
+                Executor(root, config=Config()).execute(*seq)
+            else:
+                argv = ["prog", pname, "--tag", "1", rname]
+                for k in range(2, u["calls"] + 1):
+                    argv += [pname, "--tag", str(k)]
+                Program(namespace=root).run(argv, exit=False)
+    except BaseException as e:  # noqa
+        exc = "%s: %s" % (type(e).__name__, e)
+    log = list(TWINLOG)
+    if exc is not None or [t for t, _ in log] != [str(k) for k in range(1, u["calls"] + 1)]:
+        hist["inrun_not_as_listed(C19, or type clash)"] += 1
+        return []
+    fails = []
+    for tag, seen in log:
+        exp = before if tag == "1" else after
+        hist["inrun_body_checked"] += 1
+        d = diff_path(seen, exp)
+        if d is not None:
+            fails.append(("body-sees-other-settings",
+                          "one run by %s: %r --tag 1, then %r (its body configures the collection at %s with %r), then %r again: call "
+                          "with tag %s sees %r at %s, the merge along its path of the tree as it is %s has %r"
+                          % (u["via"], pname, rname, "/".join(addr_keys(spec, u["target"])) or "<root>", u["cfg"], pname, tag,
+                             get_path(seen, d), ".".join(d), "before the reconfiguration" if tag == "1" else "at the time of that call",
+                             get_path(exp, d))))
+            break
+    return fails
+
+
+def run_inrun_reconfigure(ctx, out):
+    rng = ctx.rng
+    count, done, tries = ctx.n(50, 700), 0, 0
+    while done < count and tries < count * 6:
+        tries += 1
+        spec = base.strip(base.methodsify(base.gen_tree(rng, rich=True)))
+        if not base.well_formed(spec) or not spec["colls"]:
+            continue
+        u = gen_inrun(rng, spec)
+        if u is None:
+            continue
+        done += 1
+        case = {"tree": spec, "names": [], "inrun": u}
+        out.hist["inrun_cases"] += 1
+        out.hist["inrun_target_%s" % ("on_path_depth%d" % len(u["target"]) if u["probe_at"][:len(u["target"])] == u["target"] else "off_path")] += 1
+        out.case(case, True)
+        try:
+            fails = run_inrun(spec, u, out.hist)
+        except ValueError:
+            continue
+        except Exception as e:  # noqa
+            fails = [("unexpected-exception", "in-run reconfiguration case raised %s: %s" % (type(e).__name__, e))]
+        for kind, why in fails[:1]:
+            out.hist["fail_" + kind] += 1
+            out.fail(dict(case, check=kind), "%s [reconfiguration inside one run]: %s" % (kind, why))
+
+
 def run(ctx):
     out = Outcome()
     drv, lines, expect, nq = base.run_trees(ctx, out, True, oracle_c17, ctx.n(220, 3000), 200 if ctx.thorough else 90,
@@ -1214,12 +1459,23 @@ def run(ctx):
     run_histories(ctx, out, lines, expect)
     run_unnamed_calls(ctx, out)
     run_multi_task_runs(ctx, out)
+    run_inrun_reconfigure(ctx, out)
     base.compare(ctx, out, drv, lines, expect)
     out.extra["queries"] = nq
     return out
 
 
 def replay(case):
+    if case.get("inrun"):
+        try:
+            fails = run_inrun(case["tree"], case["inrun"])
+        except ValueError as e:
+            return True, "the API refuses this tree (%s)" % e
+        except Exception as e:
+            return False, "unexpected-exception: in-run reconfiguration case raised %s: %s" % (type(e).__name__, e)
+        if fails:
+            return False, "; ".join("%s: %s" % (k, w) for k, w in fails[:3])
+        return True, "ok (reconfiguration inside one run)"
     if case.get("multi"):
         try:
             fails = run_multi(case["tree"], case["multi"]["runs"], case["multi"]["via"])
